@@ -368,7 +368,13 @@ def db_from_lens(rng, scheme, cfg, lens, cls="profile", fix_config=True, kw_min=
         files = len({i for v in db.values() for i in v})
         # param_n is an upper bound the user chooses: exact, a little slack, or a generous bound (which can cross a
         # power of two of n + max and so select another PRP width than the exact count would)
-        cfg["param_n"] = files + rng.choice([0, 0, 3, files, 2 * files + 1, 40])
+        slack = rng.choices([0, 3, files, 2 * files + 1, "next-width"], [50, 15, 15, 10, 10])[0]
+        if slack == "next-width":
+            # the smallest bound for which n + max needs one more bit than (number of files) + max does
+            mx = sse2_param_max(cfg["param_max_file_size"])
+            nxt = 2 ** math.ceil(math.log2(files + mx)) - mx + 1
+            slack = nxt - files if files < nxt <= 160 else 3
+        cfg["param_n"] = files + slack
     if scheme == "CGKO06.SSE1" and fix_config:
         cfg["param_dictionary_size"] = rng.choice([len(db), len(db) + 5, 64]) if "param_dictionary_size_fixed" not in cfg \
             else cfg["param_dictionary_size"]
@@ -376,6 +382,17 @@ def db_from_lens(rng, scheme, cfg, lens, cls="profile", fix_config=True, kw_min=
     if scheme == "CJJ14.Pi2Lev":
         info["pi2lev_cases"] = sorted({pi2lev_case_of(cfg, len(v)) for v in db.values()})
     return db, info
+
+
+def sse2_param_max(max_document_size):
+    """SSE-2's `max` (most keywords a document of the maximal size can hold), as its configuration documents it."""
+    result, size, used = 0, 1, 0
+    while True:
+        if used + 2 ** (size * 8) * size > max_document_size:
+            return result + (max_document_size - used) // size
+        result += 2 ** (size * 8)
+        used += 2 ** (size * 8) * size
+        size += 1
 
 
 def db_fingerprint(db):
